@@ -2,13 +2,16 @@ import SamplyModel.Proto
 import SamplyModel.Model.SymbolList
 import SamplyModel.Model.BreakpadLookup
 import SamplyModel.Model.JitDumpIndex
+import SamplyModel.Model.ObjectFile
 /-!
 Line protocol for C05 (symbol lookup).
 
 First op line: `kind obj | bp | jit | fixture <tag> <path>`.
 
 `kind obj` — an ELF64 object as the harness writes it (harness/src/gen/elf_syms.rs):
-    seg <off> <vaddr> <filesz>                       PT_LOAD program headers, in order
+    seg <off> <vaddr> <filesz> [<memsz>]             PT_LOAD program headers, in order
+    ehpcrel <sh_addr>                                `.eh_frame` is written with two `zR` CIEs and pc-relative sdata4
+                                                     pointers at section address sh_addr (the FDEs are the `fde` lines)
     sec <t|x|d|n> <addr> <size> <off>                sections in order (index = 1-based position):
                                                      t PROGBITS+AX, x NOBITS+AX, d PROGBITS+WA, n NOBITS+WA
     sym <s|d> <f|i|n|o> <N|u|a> <value> <size> <namehex|!> <demangledhex>
@@ -18,11 +21,22 @@ First op line: `kind obj | bp | jit | fixture <tag> <path>`.
     entry <addr>                                     e_entry
     fde <initial> <len>                              one FDE of .eh_frame (absolute pointers)
 `kind bp` — a Breakpad `.sym` file:   func <addr> <size> <namehex|!>  |  pub <addr> <namehex|!>   (`!` = not UTF-8)
-`kind jit` — a jitdump file:          load <codelen> <namehex>  |  other <bodylen>
+`kind jit` — a jitdump file:          load <codelen> <namehex>  |  other <bodylen>  |  dbg <n> (JIT_CODE_DEBUG_INFO with n
+                                      line entries)  |  be (big-endian file)  |  cut <k> (the last k bytes are missing)
 all kinds:  q <r|s|o> <addr> <rel|none|xwf>          a lookup; third field = the relative address this lookup
                                                      address stands for according to the generator
                                                      (`none`: it stands for none; `xwf`: outside the hypotheses)
-`kind fixture`: q <form> <addr> <claim> :: <answer recorded when the case was generated>
+`kind fixture`: q <form> <addr> <claim> :: <answer recorded when the case was generated>      (PDB, fat Mach-O)
+`kind fxobj <tag> <path>` — a repository fixture (ELF / Mach-O / PE) with what `object` presents of it, read by the harness:
+    felf <0|1> | fobjbase <n> | fentry <n> | fexports-none | fexp <addr> <namehex>
+    fseg <namehex|-> <addr> <fileoff> <filesize>     segments in order
+    fsec <index> <T|U|O> <0|1> <addr> <size> <off|-> <fsize>   sections in order; kind Text / UninitializedData / other; SHF_EXECINSTR
+    fsym <s|d> <t|l|o> <sect|-> <addr> <size> <namehex|!>     symbols with a non-zero address; kind Text / Label / other
+    feh | ffde <initial> <len>                       ELF: `.eh_frame` is readable; its FDEs (harness's own parser)
+    fpdata <hex>                                     PE: bytes of `.pdata`
+    fstartsraw <hex> | funwind-present | funwind <a>*   Mach-O: LC_FUNCTION_STARTS bytes; `__unwind_info` function starts (own parser)
+    dem <rawhex> <demhex>                            oracle values of `demangle_any` (absent = unchanged)
+    output: count <n> / itsum <len> <sum of addresses mod 2^64> <sum of name lengths> / a … ; nb … ; nx … per query
 
 output:  `panic` alone if loading panics, else
     count <symbol_count>
@@ -102,6 +116,8 @@ structure ObjOps where
 def parseObjLine (o : ObjOps) (l : String) : ObjOps :=
   match words l with
   | ["seg", a, b, c] => { o with segs := o.segs ++ [(nat! a, nat! b, nat! c)] }
+  -- fifth field: `p_memsz` (> `p_filesz`); `object` reports the file range (offset, `p_filesz`), the code never reads it
+  | ["seg", a, b, c, _] => { o with segs := o.segs ++ [(nat! a, nat! b, nat! c)] }
   | ["sec", k, a, b, c] => { o with secs := o.secs ++ [(k, nat! a, nat! b, nat! c)] }
   | ["sym", t, ty, sh, v, sz, nm, dm] =>
     let r : RawSym := {
@@ -187,7 +203,30 @@ def modelBp (ls : List String) : List String :=
 
 /-- file layout of the records: header 40 bytes; record header 16 bytes; a JIT_CODE_LOAD body is 40 bytes of
 fixed fields, the NUL-terminated name, the code bytes -/
-def jitEntries (ls : List String) : List JitDump.Entry :=
+def jitRecSize (l : String) : Option Nat :=
+  match words l with
+  | ["load", len, nm] => some (16 + 40 + (hexName nm).length + 1 + nat! len)
+  | ["other", len] => some (16 + nat! len)
+  | ["dbg", n] => some (16 + 16 + 21 * nat! n)
+  | _ => none
+
+/-- `cut <k>`: the last k bytes of the file are missing. `from_reader` (jitdump.rs:71-111) stops at the first record
+that is not completely there (`next_record()` / `skip_next_record()` / `next_record_header()` return nothing), so
+exactly the record lines that lie completely inside the file count; other lines are kept. -/
+def jitKept (ls : List String) : List String :=
+  let total := 40 + (ls.filterMap jitRecSize).foldl (· + ·) 0
+  let cut := (ls.findSome? fun l => match words l with | ["cut", k] => k.toNat? | _ => none).getD 0
+  let limit := total - cut
+  let rec go (ls : List String) (off : Nat) (alive : Bool) : List String :=
+    match ls with
+    | [] => []
+    | l :: rest =>
+      match jitRecSize l with
+      | none => l :: go rest off alive
+      | some sz => if alive && off + sz ≤ limit then l :: go rest (off + sz) true else go rest off false
+  go ls 40 true
+
+def jitEntriesAll (ls : List String) : List JitDump.Entry :=
   let rec go (ls : List String) (off : Nat) (acc : List JitDump.Entry) : List JitDump.Entry :=
     match ls with
     | [] => acc.reverse
@@ -198,11 +237,28 @@ def jitEntries (ls : List String) : List JitDump.Entry :=
         let codeOff := off + 16 + 40 + name.length + 1
         go rest (codeOff + nat! len) (⟨codeOff, nat! len, some name⟩ :: acc)
       | ["other", len] => go rest (off + 16 + nat! len) acc
+      -- JIT_CODE_DEBUG_INFO (jitdump.rs:96-103): remembered for the next load's frames, no index entry
+      | ["dbg", n] => go rest (off + 16 + 16 + 21 * nat! n) acc
       | _ => go rest off acc
   go ls 40 []
 
+def jitEntries (ls : List String) : List JitDump.Entry := jitEntriesAll (jitKept ls)
+
+/-- the record stream and the file length for the model's `from_reader` (header 40 bytes) -/
+def jitRecsOfOps (ls : List String) : List JitDump.Rec :=
+  ls.filterMap fun l =>
+    match words l with
+    | ["load", len, nm] => let name := hexName nm; some (.load name.length (nat! len) (some name))
+    | ["other", len] => some (.other (16 + nat! len))
+    | ["dbg", n] => some (.debugInfo (16 + 16 + 21 * nat! n))
+    | _ => none
+
+def jitFileLen (ls : List String) : Nat :=
+  40 + ((jitRecsOfOps ls).map (·.size)).foldl (· + ·) 0
+    - (ls.findSome? fun l => match words l with | ["cut", k] => k.toNat? | _ => none).getD 0
+
 def modelJit (ls : List String) : List String :=
-  match JitDump.buildIndex (jitEntries ls) with
+  match JitDump.buildIndex (JitDump.entriesFrom (jitFileLen ls) 40 (jitRecsOfOps ls)) with
   | none => ["panic"]
   | some ix =>
     [s!"count {ix.rels.length}"]
@@ -215,6 +271,114 @@ comparison checks that a fresh load gives the recorded answers; the property its
 def modelFixture (ls : List String) : List String :=
   (queriesOf ls).map fun q => s!"a {q.form} {q.addr} {q.recorded}"
 
+/-! ### kind fxobj: a fixture with the `object` presentation of the file: the model builds the symbol list -/
+
+structure FxOps where
+  isElf : Bool := false
+  objBase : Nat := 0
+  entry : Nat := 0
+  segs : List ObjFile.Segment := []          -- reversed while parsing
+  secs : List ObjFile.Section := []
+  syms : List SymList.ObjSym := []
+  dyns : List SymList.ObjSym := []
+  exports : Option (List (Nat × Name)) := some []
+  eh : Bool := false
+  fdes : List (Nat × Nat) := []
+  pdata : Option (List UInt8) := none
+  startsRaw : Option (List UInt8) := none
+  unwind : Option (List Nat) := none
+  dem : List (Name × Name) := []
+  tag : String := ""
+
+def parseFxLine (o : FxOps) (l : String) : FxOps :=
+  match words l with
+  | ["felf", b] => { o with isElf := b = "1" }
+  | ["fobjbase", n] => { o with objBase := nat! n }
+  | ["fentry", n] => { o with entry := nat! n }
+  | ["fexports-none"] => { o with exports := none }
+  | ["fexp", a, n] => { o with exports := o.exports.map fun l => (nat! a, hexName n) :: l }
+  | ["fseg", n, a, off, sz] =>
+    { o with segs := ⟨if n = "-" then none else some (hexName n), nat! a, nat! off, nat! sz⟩ :: o.segs }
+  | ["fsec", i, k, x, a, sz, off, fsz] =>
+    let kind : ObjFile.SecKind := if k = "T" then .text else if k = "U" then .uninit else .other
+    { o with secs := ⟨nat! i, kind, x = "1", nat! a, nat! sz, off.toNat?.map fun f => (f, nat! fsz)⟩ :: o.secs }
+  | ["fsym", t, k, sect, a, sz, n] =>
+    let kind : SymList.SymKind := if k = "t" then .text else if k = "l" then .label else .other
+    let sym : SymList.ObjSym := ⟨nat! a, nat! sz, kind, sect.toNat?, if n = "!" then none else some (hexName n)⟩
+    if t = "d" then { o with dyns := sym :: o.dyns } else { o with syms := sym :: o.syms }
+  | ["feh"] => { o with eh := true }
+  | ["ffde", a, b] => { o with fdes := (nat! a, nat! b) :: o.fdes }
+  | ["fpdata", h] => { o with pdata := some (hexBytes h) }
+  | ["fpdata"] => { o with pdata := some [] }
+  | ["fstartsraw", h] => { o with startsRaw := some (hexBytes h) }
+  | ["fstartsraw"] => { o with startsRaw := some [] }
+  | ["funwind-present"] => { o with unwind := some (o.unwind.getD []) }
+  | "funwind" :: rest => { o with unwind := some (o.unwind.getD [] ++ rest.map (nat! ·)) }
+  | ["dem", r, d] => { o with dem := (hexName r, hexName d) :: o.dem }
+  | _ => o
+
+def FxOps.pres (o : FxOps) : ObjFile.Pres where
+  isElf := o.isElf
+  objBase := o.objBase
+  segments := o.segs.reverse
+  sections := o.secs.reverse
+  symbols := o.syms.reverse
+  dynSymbols := o.dyns.reverse
+  exports := o.exports.map (·.reverse)
+  entry := o.entry
+  funcs :=
+    if o.tag = "pe" then .pe o.pdata
+    else if o.tag = "macho" ∨ o.tag = "dsym" then .macho o.startsRaw o.unwind
+    else .elf (if o.eh then some o.fdes.reverse else none)
+
+def parseFx (tag : String) (ls : List String) : FxOps := ls.foldl parseFxLine { tag := tag }
+
+def FxOps.demangle (o : FxOps) (n : Name) : Name :=
+  match o.dem.find? (fun p => p.1 == n) with
+  | some p => p.2
+  | none => n
+
+/-- the `nb … ; nx …` suffix the harness prints: the enumerated entry with the greatest start `≤` the claimed relative
+address, and the next enumerated start -/
+def fxNeighbourhood (dem : Name → Name) (en : List (Nat × Name)) (claim : Claim) : String :=
+  match claim with
+  | .rel a =>
+    let g := en.foldl (fun (acc : Option (Nat × Name)) e => if e.1 ≤ a then some e else acc) none
+    let nx := match en.find? (fun e => a < e.1) with
+      | some e => toString e.1
+      | none => "none"
+    match g with
+    | none => s!"nb - ; nx {nx}"
+    | some e => s!"nb {e.1} {bytesHex e.2} {bytesHex (dem e.2)} ; nx {nx}"
+  | _ => "nb - ; nx none"
+
+def isDescLine (l : String) : Bool := (l.startsWith "f" && !l.startsWith "fsum ") || l.startsWith "dem "
+
+/-- checksum over the description lines (the same function is in harness/src/gen/objpres.rs): a case whose
+description was altered (by the shrinker) is not a description of the file any more; both sides answer `bad-op` -/
+def descHash (ls : List String) : Nat :=
+  ls.foldl (fun h l =>
+    if isDescLine l then ((l.foldl (fun h c => (h * 31 + c.toNat) % 2305843009213693951) h) * 31 + 10) % 2305843009213693951
+    else h) 7
+
+def fsumOk (ls : List String) : Bool :=
+  match ls.findSome? (fun l => match words l with | ["fsum", n] => n.toNat? | _ => none) with
+  | some n => n == descHash ls
+  | none => false
+
+def modelFxobj (tag : String) (ls : List String) : List String :=
+  if !fsumOk ls then ["bad-op"] else
+  let o := parseFx tag ls
+  match ObjFile.mapOf o.pres with
+  | none => ["panic"]
+  | some m =>
+    let dem := o.demangle
+    let en := SymList.iterSymbols m.entries
+    [s!"count {SymList.symbolCount m.entries}",
+     s!"itsum {en.length} {(en.foldl (fun acc e => acc + e.1) 0) % U64} {en.foldl (fun acc e => acc + e.2.length) 0}"]
+    ++ (queriesOf ls).map fun q =>
+      s!"a {q.form} {q.addr} {showAns (SymList.lookupSync dem (fun s => s + 1 == U64) m q.toAddr)} ; {fxNeighbourhood dem en q.claim}"
+
 def model (ls : List String) : List String :=
   match ls with
   | k :: rest =>
@@ -223,6 +387,8 @@ def model (ls : List String) : List String :=
     | ["kind", "bp"] => modelBp rest
     | ["kind", "jit"] => modelJit rest
     | "kind" :: "fixture" :: _ => modelFixture rest
+    | "kind" :: "fxobj" :: tag :: _ => modelFxobj tag rest
+    | ["kind", "census"] => rest
     | _ => ["bad-op"]
   | [] => ["bad-op"]
 
@@ -407,7 +573,7 @@ def judgeEnum (kind : String) (o : ObjOps) (rest : List String) (en : List EnumI
   let expected : Option (List (Nat × Name)) :=
     if kind = "obj" then some (bestPerAddress (objCandidates o))
     else if kind = "bp" then some (bestPerAddress (bpCandidates rest))
-    else if kind = "jit" then some (jitExpectedEnum rest)
+    else if kind = "jit" then some (jitExpectedEnum (jitKept rest))
     else none
   match expected with
   | none => none
@@ -488,10 +654,70 @@ def judgeExtent (ends : List Nat) (al : AnsLine) : Option String :=
     | _ => none
   | _ => none
 
+/-! #### completeness: an unanswered lookup must be justified by the file (no spurious miss)
+
+Object files: every address the file prescribes an entry at (named or unnamed candidate, end of a text section, end of
+a sized function symbol of the symbol table, FDE end); a miss at `a` is justified iff no enumerated symbol starts
+at or before `a`, or some prescribed entry lies in `(g, a]` (`g` = greatest enumerated start `≤ a`: that entry is then
+an end marker or an unreadable name), or no prescribed entry lies above `a` (`g` is the last entry: its end is unknown). -/
+
+def objEntryAddrs (o : ObjOps) : List Nat :=
+  let base := o.base
+  let endOf (a size : Nat) : Option Nat := if a + size < U64 then relOf base (a + size) else none
+  (objCandidates o).map (·.1)
+  ++ (o.secs.filter fun s => s.1 = "t").filterMap (fun s => endOf s.2.1 s.2.2.1)
+  ++ (o.syms.filter fun s => !s.dyn && (s.typ = "f" || s.typ = "i") && s.value ≠ 0 && s.size ≠ 0).filterMap
+      (fun s => endOf s.value s.size)
+  -- FDE-REBASE: where the code puts them
+  ++ o.fdes.map (fun f => (f.1 + f.2) % U32)
+
+def missJustifiedObj (addrs : List Nat) (g : Option Nat) (a : Nat) : Bool :=
+  match g with
+  | none => true
+  | some g => addrs.any (fun m => g < m && m ≤ a) || !(addrs.any fun m => a < m)
+
+/-- Breakpad: the records at the greatest record address `≤ a`; a miss is justified iff there is none, or one of
+them is unreadable, or one is a FUNC whose range ends at or before `a` -/
+def missJustifiedBp (rest : List String) (a : Nat) : Bool :=
+  let recs : List (Nat × Option Nat × Bool) := rest.filterMap fun l =>
+    match words l with
+    | ["func", x, sz, n] => some (nat! x, some (nat! sz), n != "!")
+    | ["pub", x, n] => some (nat! x, none, n != "!")
+    | _ => none
+  let g := recs.foldl (fun acc r => if r.1 ≤ a then (match acc with | none => some r.1 | some m => some (max m r.1)) else acc) none
+  match g with
+  | none => true
+  | some g => (recs.filter fun r => r.1 = g).any fun r =>
+      !r.2.2 || (match r.2.1 with | some sz => g + sz ≤ a | none => false)
+
+/-- jitdump: a miss is justified iff the relative address is a code byte of no record -/
+def missJustifiedJit (jrecs : List (Nat × Nat × String)) (a : Nat) : Bool :=
+  !(jrecs.any fun r => r.1 ≤ a && a < r.1 + r.2.1)
+
+def judgeComplete (kind : String) (fixtureObj : Bool) (objAddrs : List Nat) (rest : List String)
+    (jrecs : List (Nat × Nat × String)) (en : List EnumItem) (q : Query) (al : AnsLine) : Option String :=
+  match al.answers, q.claim with
+  | [one], .rel a =>
+    if parseAns one ≠ some .miss then none else
+    let bad : Bool :=
+      if kind = "obj" then !(missJustifiedObj objAddrs (greatestLE en a) a)
+      else if kind = "fxobj" then
+        !(missJustifiedObj objAddrs (match al.nb with | some (e :: _) => some e.addr | _ => none) a)
+      else if kind = "bp" then !(missJustifiedBp rest a)
+      else if kind = "jit" then !(missJustifiedJit jrecs a)
+      else if fixtureObj then
+        -- fixtures (object kinds): a lookup exactly at an enumerated start that is not the last one
+        (match al.nb, al.nx with
+         | some (e :: _), some _ => e.addr = a
+         | _, _ => false)
+      else false
+    if bad then some s!"[complete] lookup {q.form} {q.addr} (relative address {a}) answered nothing, the file prescribes a symbol there"
+    else none
+  | _, _ => none
+
 /-- which relative address a lookup address stands for, from the description (generated kinds); fixtures:
 the claim on the query line, computed by the harness from the file's program headers -/
-def objClaim (o : ObjOps) (q : Query) : Claim :=
-  let base := o.base
+def claimFrom (base : Nat) (ranges : List SymList.Range) (q : Query) : Claim :=
   let ofSvma (s : Nat) : Claim :=
     if s + 1 = U64 then .xwf else
     match relOf base s with
@@ -510,7 +736,9 @@ def objClaim (o : ObjOps) (q : Query) : Claim :=
             (if U64 ≤ r.svma + (q.addr - r.fileOffset) then .none else ofSvma (r.svma + (q.addr - r.fileOffset)))
           else go rs
         else go rs
-    go (rangesOf o)
+    go ranges
+
+def objClaim (o : ObjOps) (q : Query) : Claim := claimFrom o.base (rangesOf o) q
 
 def jitClaim (entries : List JitDump.Entry) (q : Query) : Claim :=
   if q.form = "r" then .rel q.addr else if q.form = "s" then .none else
@@ -534,11 +762,119 @@ def loadXwf (kind : String) (o : ObjOps) : Bool :=
     !(fdeSafe o) || (defs.all (·.name.isSome) && defs.any fun s => s.value < o.base)
   else false
 
+/-! #### fixtures with a description (`kind fxobj`): what the presentation prescribes, computed declaratively -/
+
+/-- the candidates for each relative address, best first (symbol table, dynamic symbols, exports, placeholders for
+the function starts of the unwind tables, entry point); `none` = unreadable name -/
+def descCandidates (d : SymList.Desc) : List (Nat × Option Name) :=
+  let keep (s : SymList.ObjSym) : Bool :=
+    s.addr ≠ 0 && (s.kind = .text || (s.kind = .label && s.size ≠ 0)) &&
+      (match s.sect with | some i => d.execSections.contains i | none => false)
+  let tab (l : List SymList.ObjSym) : List (Nat × Option Name) :=
+    (l.filter keep).filterMap fun s => (relOf d.base s.addr).map (·, s.name)
+  tab d.symbols ++ tab d.dynSymbols
+  ++ (match d.exports with | some xs => xs.map fun x => ((x.1 - d.base) % U32, some x.2) | none => [])
+  ++ (match d.funcStarts with | some xs => xs.map fun a => (a, some (SymList.synthName a)) | none => [])
+  ++ (if d.base ≤ d.entry then [((d.entry - d.base) % U32, some SymList.entryPointName)] else [])
+
+/-- every relative address the file prescribes an entry at: the candidates and the end markers -/
+def descEntryAddrs (d : SymList.Desc) : List Nat :=
+  let endOf (a size : Nat) : Option Nat := if a + size < U64 then relOf d.base (a + size) else none
+  (descCandidates d).map (·.1)
+  ++ d.textSections.filterMap (fun s => endOf s.1 s.2)
+  ++ (d.symbols.filter fun s => s.kind = .text && s.addr ≠ 0 && s.size ≠ 0).filterMap (fun s => endOf s.addr s.size)
+  ++ (match d.funcEnds with | some xs => xs | none => [])
+
+/-- an answered symbol must be the best named candidate the file has at its start, and may not extend across any
+address at which the file prescribes another entry -/
+def judgeFxAnswer (cands : List (Nat × Option Name)) (addrs : List Nat) (al : AnsLine) : Option String :=
+  match al.answers with
+  | [one] =>
+    match parseAns one with
+    | some (.hit (start, size, _)) =>
+      let raw := match al.nb with
+        | some (e :: _) => if e.addr = start then some e.raw else none
+        | _ => none
+      match cands.find? (fun c => c.1 == start) with
+      | none => some s!"[enum] answer start {start} for {al.form} {al.addr}: the file has no symbol candidate there"
+      | some (_, none) => some s!"[enum] answer start {start} for {al.form} {al.addr}: the best candidate there has no readable name"
+      | some (_, some n) =>
+        if raw ≠ some (bytesHex n) then
+          some s!"[enum] at {start} the enumeration lists {raw}, the file prescribes {bytesHex n}"
+        else match size with
+          | some sz =>
+            (match addrs.find? (fun m => start < m && m < start + sz) with
+             | some m => some s!"[extent] answer {start}+{sz} for {al.form} {al.addr} extends across the prescribed entry at {m}"
+             | none => none)
+          | none => some s!"[extent] answer at {start} reports no size"
+    | _ => none
+  | _ => none
+
+/-- floors of the fixture census: (tag, loaded at least, presented to the model at least) -/
+def censusFloors : List (String × Nat × Nat) :=
+  [("elf", 18, 18), ("macho", 11, 11), ("pe", 7, 7), ("pdb", 2, 0), ("dsym", 1, 1)]
+
+def judgeCensus (impl : List String) : Bool × String :=
+  let get (key tag : String) : Nat :=
+    (impl.findSome? fun l => match words l with
+      | [k, t, n] => if k = key ∧ t = tag then n.toNat? else none
+      | _ => none).getD 0
+  match censusFloors.find? (fun f => get "loaded" f.1 < f.2.1 ∨ get "modelled" f.1 < f.2.2) with
+  | some f => (false, s!"[census] fixtures of kind {f.1}: loaded {get "loaded" f.1} (floor {f.2.1}), modelled {get "modelled" f.1} (floor {f.2.2})")
+  | none =>
+    match impl.find? (fun l => l.startsWith "load-panic ") with
+    | some l => (false, s!"[census] {l}")
+    | none => (true, "ok")
+
+def judgeFxobj (tag : String) (rest impl : List String) : Bool × String :=
+  if !fsumOk rest then (true, "ok (the description does not match its checksum: not a generated case)") else
+  let o := parseFx tag rest
+  let p := o.pres
+  match ObjFile.descOf p with
+  | none => if impl = ["panic"] then (true, "ok") else (false, "[load-panic] the function tables overflow but loading did not panic")
+  | some d =>
+    if impl = ["panic"] then
+      (if SymList.buildSafe d then (false, "[load-panic] loading panicked") else (true, "ok"))
+    else
+    let base := d.base
+    let ranges := ObjFile.rangesOf p
+    let qs := (queriesOf rest).map fun q => { q with claim := claimFrom base ranges q }
+    -- the harness's claim on the query line is only used for the neighbourhood it prints; it must be the judge's
+    match ((queriesOf rest).zip qs).find? (fun pq => pq.1.claim ≠ pq.2.claim) with
+    | some pq => (false, s!"harness claim for {pq.1.form} {pq.1.addr} differs from the judge's")
+    | none =>
+    let als := impl.filterMap parseAnsLine
+    if als.length ≠ qs.length then (false, s!"{als.length} answer lines for {qs.length} queries") else
+    let cands := descCandidates d
+    let addrs := descEntryAddrs d
+    match (qs.zip als).findSome? (fun pq =>
+        (((judgeQuery true [] pq.1 pq.2).orElse fun _ => judgeFxAnswer cands addrs pq.2).orElse fun _ =>
+          judgeOverlap [] pq.2).orElse fun _ => judgeComplete "fxobj" false addrs [] [] [] pq.1 pq.2) with
+    | some why => (false, why)
+    | none =>
+      let claimed := (qs.zip als).filterMap fun pq =>
+        match pq.1.claim with
+        | .rel a => some (a, pq.1, pq.2.answers)
+        | _ => none
+      let rec agree : List (Nat × Query × List String) → Option String
+        | [] => none
+        | (a, q, ans) :: rest =>
+          match rest.find? (fun r => r.1 = a ∧ r.2.2 ≠ ans) with
+          | some r => some s!"[forms] relative address {a}: {q.form} {q.addr} answers {ans}, {r.2.1.form} {r.2.1.addr} answers {r.2.2}"
+          | none => agree rest
+      match agree claimed with
+      | some why => (false, why)
+      | none => (true, "ok")
+
 def judge (ops impl : List String) : Bool × String :=
   match ops with
   | [] => (false, "bad-op")
   | k :: rest =>
     let kw := words k
+    if kw = ["kind", "census"] then judgeCensus impl else
+    if kw.take 2 = ["kind", "desc-selfcheck-failed"] then
+      (false, "[selfcheck] the generator produced a fixture description that does not survive the ops file") else
+    if kw.take 2 = ["kind", "fxobj"] then judgeFxobj (kw.getD 2 "") rest impl else
     let fixture := kw.take 2 = ["kind", "fixture"]
     let checkNames := !(fixture ∧ kw.getD 2 "" = "pdb")
     let kind := kw.getD 1 ""
@@ -553,13 +889,16 @@ def judge (ops impl : List String) : Bool × String :=
     if als.length ≠ qs.length then (false, s!"{als.length} answer lines for {qs.length} queries") else
     let ends := if kind = "obj" then objKnownEnds o else []
     let bpRecs := if kind = "bp" then bpRecsOf rest else []
-    let jitRecs := if kind = "jit" then jitRecsOf rest else []
+    let jitRecs := if kind = "jit" then jitRecsOf (jitKept rest) else []
     match judgeEnum kind o rest en with
     | some why => (false, why)
     | none =>
+    let objAddrs := if kind = "obj" then objEntryAddrs o else []
+    let fixtureObj := fixture && ["elf", "macho", "pe", "dsym"].contains (kw.getD 2 "")
     match (qs.zip als).findSome? (fun p => ((judgeQuery checkNames en p.1 p.2).orElse fun _ => judgeExtent ends p.2).orElse fun _ =>
-        ((if kind = "bp" ∨ (fixture ∧ kw.getD 2 "" = "pdb") then none else judgeOverlap en p.2).orElse fun _ =>
-          judgeRecord kind bpRecs jitRecs p.2)) with
+        (((if kind = "bp" ∨ (fixture ∧ kw.getD 2 "" = "pdb") then none else judgeOverlap en p.2).orElse fun _ =>
+          judgeRecord kind bpRecs jitRecs p.2).orElse fun _ =>
+          judgeComplete kind fixtureObj objAddrs rest jitRecs en p.1 p.2)) with
     | some why => (false, why)
     | none =>
       -- address forms: all lookups that stand for the same relative address have the same answer
